@@ -74,6 +74,27 @@ theorem C07_vjp_adj_real (J : CVec ℝ n → CVec ℝ m) (G : CVec ℝ m → CVe
   rw [cvjp_eq_vjp_true]
   exact ⟨vjp_conj_real_adjoint J G hG v d, vjp_conj_real_adjoint J G hG v d⟩
 
+/-- operators with a **real input array** (e.g. real image → complex measurements): JAX's
+    cotangent is real, its contract holds for real directions; `Gmap` is still the adjoint of the
+    Jacobian-vector product on the (real) input space — the conjugations are needed although the
+    input is real.  Dense instance: `G c = Re(Aᵀ c)` meets the hypothesis and `Gmap v = Re(Aᴴ v)`. -/
+theorem C07_vjp_adj_real_input (J : CVec ℝ n → CVec ℝ m) (G : CVec ℝ m → CVec ℝ n)
+    (hG : ∀ c d, (∀ i, (d i).im = 0) → reBdot (G c) d = reBdot c (J d))
+    (v : CVec ℝ m) (d : CVec ℝ n) (hd : ∀ i, (d i).im = 0) :
+    reInner (vjpWrap true G v) d = reInner v (J d) :=
+  vjp_conj_real_adjoint_at J G v d (hG _ d hd)
+
+theorem C07_vjp_real_input_matrix (A : Mat ℝ m n) (v : CVec ℝ m) :
+    (∀ c d, (∀ i, (d i).im = 0) →
+      reBdot (realPart (mulVec (transpose A) c)) d = reBdot c (mulVec A d)) ∧
+    vjpWrap true (fun c => realPart (mulVec (transpose A) c)) v = realPart (mulVec (adjMat A) v) := by
+  refine ⟨fun c d hd => by rw [reBdot_realPart _ _ hd, reBdot_transpose], ?_⟩
+  have h := vjpWrap_matrix A v
+  simp only [vjpWrap, if_true] at h ⊢
+  rw [← h]
+  funext i
+  apply Cx.ext' <;> simp [conjVec, realPart]
+
 /-- for a ℂ-linear Jacobian (`G` its plain transpose) `Gmap` is the complex adjoint,
     and without the conjugate flag it is the transpose -/
 theorem C07_vjp_adj {K : Type} [CommRing K] (J : CVec K n → CVec K m) (G : CVec K m → CVec K n)
@@ -110,6 +131,17 @@ theorem C07_jacobian_op_real (inc : Bool) (Fu : CVec ℝ m) (J : CVec ℝ n → 
   obtain ⟨h1, h2, _, _⟩ := jacobian_blocks inc Fu J G v w
   rw [h1, h2]
   exact vjp_conj_real_adjoint J G hG w v
+
+/-- the code as it is: for an operator whose input and output dtypes differ in kind, the adjoint
+    direction with `include_eval` is rejected (two blocks of different dtype); in every other
+    configuration it is `jacobianAdj`, to which `C07_jacobian_op` applies
+    (recorded: `known_findings.txt`, jacobian-include-eval-mixed-dtype). -/
+theorem C07_jacobian_adj_partial {K : Type} [CommRing K] (inc inC outC : Bool) (Fu : CVec K m)
+    (G : CVec K m → CVec K n) (w : CVec K m) :
+    (jacobianAdjChecked inc inC outC Fu G w = none ↔ (inc = true ∧ inC ≠ outC)) ∧
+    (¬(inc = true ∧ inC ≠ outC) → jacobianAdjChecked inc inC outC Fu G w = some (jacobianAdj inc Fu G w)) := by
+  unfold jacobianAdjChecked
+  cases inc <;> cases inC <;> cases outC <;> simp
 
 /-- with `include_eval` the "linear operator" is affine: it is additive iff `F(u) = 0` -/
 theorem C07_jacobian_include_eval_affine {K : Type} [CommRing K] (Fu : CVec K m) (J : CVec K n → CVec K m)
